@@ -324,8 +324,6 @@ Inductive xdoc :=
 | XSel (head : list str) (results : list (list xbind)).
 
 Definition xsd_integer := s2l "http://www.w3.org/2001/XMLSchema#integer".
-Definition xsd_string := s2l "http://www.w3.org/2001/XMLSchema#string".
-Definition w3_prefix := s2l "http://www.w3.org/".
 Definition in_range (lo hi c : N) : bool := (lo <=? c) && (c <=? hi).
 Definition is_digit (c : N) : bool := in_range 48 57 c.
 Definition canonical_int (s : str) : bool :=
@@ -335,33 +333,7 @@ Definition canonical_int (s : str) : bool :=
   | c :: r => is_digit c && negb (c =? 48) && forallb is_digit r
   end.
 
-Fixpoint has_prefix (p s : str) : bool :=
-  match p, s with
-  | [], _ => true
-  | a :: p', b :: s' => (a =? b) && has_prefix p' s'
-  | _, [] => false
-  end.
-
-(* Literal.__bool__ : the truth value of the Python value when the datatype is one rdflib converts,
-   else that of the lexical form.  Modelled for canonical xsd:integer, xsd:boolean true/false,
-   xsd:string and for datatypes rdflib does not know ([lit_modelled]). *)
-Definition lit_modelled (lex : str) (dt : option str) : bool :=
-  match dt with
-  | None => true
-  | Some d => (str_eqb d xsd_integer && canonical_int lex)
-              || (str_eqb d xsd_boolean && (str_eqb lex (s2l "true") || str_eqb lex (s2l "false")))
-              || str_eqb d xsd_string || negb (has_prefix w3_prefix d)
-  end.
-Definition lit_truthy (lex : str) (dt : option str) : bool :=
-  match dt with
-  | Some d => if str_eqb d xsd_integer then negb (str_eqb lex [48])
-              else if str_eqb d xsd_boolean then negb (str_eqb lex (s2l "false"))
-              else negb (str_eqb lex [])
-  | None => negb (str_eqb lex [])
-  end.
-(* XMLGenerator.characters(content):  if content: write(escape(content)) *)
-Definition sax_characters (truthy : bool) (s : str) : str := if truthy then sax_escape s else [].
-
+(* XMLGenerator.characters(str(val)):  if content: write(escape(content));  escape("") = "" *)
 (* SPARQLXMLWriter.write_binding; None = Exception("Unsupported RDF term") *)
 Definition xml_write_term (t : option term) : option xterm :=
   match t with
@@ -370,11 +342,11 @@ Definition xml_write_term (t : option term) : option xterm :=
   | Some (Lit lex dt lang) =>
       (* if val.language: ... elif val.datatype: ...   (truthiness) *)
       match nonempty lang with
-      | Some l => Some {| xk := KLiteral; x_dt := None; x_lang := Some (sax_quoteattr l); x_text := sax_characters (lit_truthy lex dt) lex |}
+      | Some l => Some {| xk := KLiteral; x_dt := None; x_lang := Some (sax_quoteattr l); x_text := sax_escape lex |}
       | None =>
         match nonempty dt with
-        | Some d => Some {| xk := KLiteral; x_dt := Some (sax_quoteattr d); x_lang := None; x_text := sax_characters (lit_truthy lex dt) lex |}
-        | None => Some {| xk := KLiteral; x_dt := None; x_lang := None; x_text := sax_characters (lit_truthy lex dt) lex |}
+        | Some d => Some {| xk := KLiteral; x_dt := Some (sax_quoteattr d); x_lang := None; x_text := sax_escape lex |}
+        | None => Some {| xk := KLiteral; x_dt := None; x_lang := None; x_text := sax_escape lex |}
         end
       end
   | None => None
@@ -422,7 +394,7 @@ Definition xml_parseTerm (p : pterm) : option term :=
                 | None => py_Literal text None None
                 end
       end
-  | KUri => match p_text p with Some t => Some (IRI t) | None => None end   (* URIRef(None): TypeError *)
+  | KUri => match p_text p with Some t => Some (IRI t) | None => Some (IRI []) end   (* URIRef(text or "") *)
   | KBnode => match p_text p with Some t => Some (BNode t) | None => Some (BNode fresh_label) end
   end.
 
@@ -552,8 +524,10 @@ Definition render_cell (st : style) (o : option term) : str :=
 Definition render_row (st : style) (vars : list str) (r : row) : str :=
   join_tab (map (fun v => render_cell st (cell v r)) vars).
 
+Definition render_header (vars : list str) : str := join_tab (map (fun v => 63 :: v) vars).
+
 Definition render_doc (st : style) (vars : list str) (rows : list row) : str :=
-  join_tab (map (fun v => 63 :: v) vars) ++ 10 :: flat_map (fun r => render_row st vars r ++ [10]) rows.
+  render_header vars ++ 10 :: flat_map (fun r => render_row st vars r ++ [10]) rows.
 
 (* --- reader --- *)
 
@@ -774,24 +748,42 @@ Fixpoint zip_row (vars : list str) (cells : list (option term)) : prow :=
   | _, _ => []
   end.
 
-Fixpoint tsv_rows (vars : list str) (lines : list str) : option (list prow) :=
+Definition is_nil {A} (l : list A) : bool := match l with [] => true | _ => false end.
+
+(* the row loop as it was before the repair of F11a: empty lines skipped, rows with nothing bound dropped *)
+Fixpoint tsv_rows_prefix (vars : list str) (lines : list str) : option (list prow) :=
   match lines with
   | [] => Some []
   | l :: r =>
       match l with
-      | [] => tsv_rows vars r                                   (* if line == "": continue *)
+      | [] => tsv_rows_prefix vars r
       | _ =>
+        match scan_row (S (List.length l)) l with
+        | None => None
+        | Some cells =>
+            match tsv_rows_prefix vars r with
+            | None => None
+            | Some rest => let d := zip_row vars cells in Some (match d with [] => rest | _ => d :: rest end)
+            end
+        end
+      end
+  end.
+
+Fixpoint tsv_rows (vars : list str) (lines : list str) : option (list prow) :=
+  match lines with
+  | [] => Some []
+  | l :: r =>
+      (* if line == "" and len(r.vars) != 1: continue *)
+      if is_nil l && negb (Nat.eqb (List.length vars) 1) then tsv_rows vars r
+      else
         match scan_row (S (List.length l)) l with
         | None => None
         | Some cells =>
             match tsv_rows vars r with
             | None => None
-            | Some rest =>
-                let d := zip_row vars cells in
-                Some (match d with [] => rest | _ => d :: rest end)   (* if len(this_row_dict) > 0 *)
+            | Some rest => Some (zip_row vars cells :: rest)     (* r.bindings.append(this_row_dict) *)
             end
         end
-      end
   end.
 
 (* TSVResultParser.parse *)
@@ -933,8 +925,6 @@ Definition wf (c : case) : bool :=
   && match c_fmt c with
      | FJson => true
      | FXml => forallb (fun r => forallb (fun kv => match snd kv with Some _ => true | None => false end) r) (c_rows c)
-               && forallb (fun r => forallb (fun t => match t with Lit lex dt _ => lit_modelled lex dt | _ => true end)
-                                            (row_terms r)) (c_rows c)
      | FTsv => match c_ask c with Some _ => false | None => true end
                && match c_vars c with [] => false | _ => true end
                && forallb varname_ok (c_vars c)
@@ -954,9 +944,9 @@ Definition term_text (t : term) : str :=
 
 Definition case_terms (c : case) : list term := flat_map row_terms (c_rows c).
 
+(* a literal whose datatype is the empty IRI (the writer and the reader test the datatype by truthiness) *)
 Definition empty_iri (t : term) : bool :=
   match t with
-  | IRI [] => true
   | Lit _ (Some []) _ => true
   | _ => false
   end.
@@ -972,13 +962,7 @@ Definition uses_cross (st : style) (t : term) : bool :=
   | _ => false
   end.
 
-Definition falsy_lit (t : term) : bool :=
-  match t with
-  | Lit lex dt _ => negb (str_eqb lex []) && negb (lit_truthy lex dt) && negb (ostr_eqb dt (Some xsd_boolean))
-  | _ => false
-  end.
-
-(* 0 = none; 1 = F11a, 2 = F11b, 3 = F11c, 4 = F11d, 5 = F11e, 6 = F11f, 7 = F11g *)
+(* 0 = none; 1 = F11h, 2 = F11b, 3 = F11c, 4 = F11d, 5 = F11e, 6 = F11f *)
 Definition kf (c : case) : N :=
   match c_fmt c, c_ask c with
   | FXml, None =>
@@ -986,10 +970,9 @@ Definition kf (c : case) : N :=
                  (c_vars c ++ flat_map keys (c_rows c) ++ flat_map term_strings (case_terms c))) then 2
       else if existsb (fun t => memb N.eqb 13 (term_text t)) (case_terms c) then 3
       else if existsb empty_iri (case_terms c) then 4
-      else if existsb falsy_lit (case_terms c) then 7
       else 0
   | FTsv, _ =>
-      if existsb (all_unbound (c_vars c)) (c_rows c) then 1
+      if py_isspace (last (render_header (c_vars c)) 0) then 1     (* header.strip() eats the end of the last name *)
       else if c_bytes c && existsb raw_break (render_doc (c_style c) (c_vars c) (c_rows c)) then 5
       else if existsb (uses_cross (c_style c)) (case_terms c) then 6
       else 0
